@@ -578,6 +578,30 @@ class PCTChooser(object):
         return max(en, key=self._p)
 
 
+class LazyChooser(object):
+    """
+    Wraps another chooser: the threads whose role is in `lazy` (the client that only opens gates) are chosen only
+    when no other thread is enabled (time-outs still expire only when nothing at all is enabled, so a lazy thread
+    always runs before any time-out).  Makes "the gate opens once everybody else is blocked" histories - stop()
+    called while a gate-blocked task is running - the rule instead of a rare coincidence.
+    """
+
+    def __init__(self, base, lazy):
+        self.base = base
+        self.lazy = frozenset(lazy)
+
+    @property
+    def alts(self):
+        return self.base.alts
+
+    def choose(self, s, en, tmo):
+        if not tmo and len(en) > 1:
+            eager = [t for t in en if t.role not in self.lazy]
+            if eager:
+                en = eager
+        return self.base.choose(s, en, tmo)
+
+
 class ReplayChooser(object):
     """Follows an explicit list of roles; afterwards (or on a miss) non-preemptive, lowest role first."""
 
